@@ -21,12 +21,12 @@ def configs(tier, rng):
     cfgs = []
     base = dict(NSs={1, 2, 3}, IntChoices={True, False}, EConChoices={0, 11, 12})
     if tier == 'quick':
-        cfgs.append(dict(base, SuppKinds={1, 2, 4}, ProbKinds={1, 2, 4}, ExptKinds={0}, Forms={'B'}, PieceSets=set(rng.sample([1, 2, 3, 4, 5], 2)), Parts={0}, Affs={'a0'}, EConChoices={0, 11}))
+        cfgs.append(dict(base, SuppKinds={1, 7, 4}, ProbKinds={1, 2, 4}, ExptKinds={0}, Forms={'B'}, PieceSets=set(rng.sample([1, 2, 3, 4, 5], 2)), Parts={0}, Affs={'a0'}, EConChoices={0, 11}))
         cfgs.append(dict(base, SuppKinds={3, 5, 6}, ProbKinds={3, 5}, ExptKinds={1, 2, 3, 4}, Forms={'B'}, PieceSets=set(rng.sample([1, 2, 3, 4, 5], 2)), Parts={0}, Affs={'a0'}, EConChoices={0, 12}, IntChoices={False}))
-        cfgs.append(dict(base, SuppKinds={2, 3, 4}, ProbKinds={1, 2, 5}, ExptKinds={0, 1, 3}, Forms={'A'}, PieceSets={1, rng.choice([2, 3, 4])}, Parts={0, 1, 2}, Affs={'a0', 'a1', 'a12'}, EConChoices={0}, IntChoices={False}))
+        cfgs.append(dict(base, SuppKinds={2, 7, 4}, ProbKinds={1, 2, 5}, ExptKinds={0, 1, 3}, Forms={'A'}, PieceSets={1, rng.choice([2, 3, 4])}, Parts={0, 1, 2}, Affs={'a0', 'a1', 'a12'}, EConChoices={0}, IntChoices={False}))
         cfgs.append(dict(base, SuppKinds={1, 5, 6}, ProbKinds={1, 3, 4}, ExptKinds={0, 2, 4}, Forms={'A'}, PieceSets={rng.choice([1, 5]), 3}, Parts={0, 1, 2}, Affs={'a0', 'a12'}, EConChoices={0, 11}, IntChoices={False}))
     else:
-        allk = dict(SuppKinds={1, 2, 3, 4, 5, 6}, ProbKinds={1, 2, 3, 4, 5}, PieceSets={1, 2, 3, 4, 5})
+        allk = dict(SuppKinds={1, 2, 3, 4, 5, 6, 7}, ProbKinds={1, 2, 3, 4, 5}, PieceSets={1, 2, 3, 4, 5})
         cfgs.append(dict(base, **allk, ExptKinds={0}, Forms={'B'}, Parts={0}, Affs={'a0'}))
         cfgs.append(dict(base, **allk, ExptKinds={1, 2, 3, 4}, Forms={'B'}, Parts={0}, Affs={'a0'}, IntChoices={False}))
         cfgs.append(dict(base, **allk, ExptKinds={0, 1, 2, 3, 4}, Forms={'A'}, Parts={0, 1, 2}, Affs={'a0', 'a1', 'a12'}, IntChoices={False}, EConChoices={0, 11}))
@@ -68,6 +68,8 @@ def run(rep, tier, props):
         for k, rec in enumerate(recs):
             conic = rec['prog']['supp'] == 4 or rec['prog']['prob'] == 5   # 1-norm sets are LP-representable: any solver
             solver = ('def', 'ort', 'grb')[k % 3] if rec['prog']['xint'] else ('def', 'ort', 'eco', 'grb')[k % 4]
+            if rec['prog']['supp'] == 7:
+                solver = 'eco'        # exponential-cone support: the only capable interface
             jobs.append(dict(tid=k, rec=rec, XB=XB, solver=solver, variant=k % 6))
         results = core.pmap('harness.replay_drosem', 'replay', jobs, chunksize=4)
         bad = core.machinery_failures(results)
@@ -82,7 +84,7 @@ def run(rep, tier, props):
             ns = rec['prog']['ns']
             if r['status'] == 'ok':
                 it = dict(prog=rec['prog'], status='ok', x=scaled(r['x'], scale), obj=scaled(r['obj'], scale),
-                          ys=[[scaled(v, scale) for v in y] for y in r['ys']], tol=tolu)
+                          ys=[[scaled(v, scale) for v in y] for y in r['ys']], tol=tolu if rec['prog']['supp'] != 7 else 60)
             else:
                 it = dict(prog=rec['prog'], status='fail', x=0, obj=0, ys=[[0, 0, 0]] * ns, tol=tolu)
             it.update(exact=rec['exact'], gridFeasible=rec['gridFeasible'], gridOptDen=rec['gridOptDen'])
@@ -134,7 +136,7 @@ def run(rep, tier, props):
         if not v['status']:
             _emit(rep, dict(sig='C04:feasible-model-not-solved:' + tag, prop='C04', what='a feasible grid decision exists but no solution was reported', **detail), props)
         # float oracle
-        tol = (5e-5 if job['solver'] == 'eco' else 5e-6)
+        tol = 5e-4 if p['supp'] == 7 else (5e-5 if job['solver'] == 'eco' else 5e-6)
         if r['status'] == 'ok' and r.get('wce') is not None:
             d = r['wce'] - r['obj']
             if d > 10 * tol * (1 + abs(r['obj'])):
